@@ -390,7 +390,7 @@ def errstate(ix: List[int], bad_at: int) -> bool:
 
 def plan(tier, seed):
     quick = tier == 'quick'
-    LP, LC = (2, 2) if quick else (3, 3)
+    LP, LC = (2, 2) if quick else (3, 2)
     slices = []
     for g in (['inl_lrec2', 'chain2'] if quick else ['inl_lrec', 'mid', 'chain', 'inl_lrec2', 'chain2']):
         for fk in range(4):
